@@ -2,6 +2,7 @@
 import os
 import random
 
+import catchup
 import cluster
 import common
 import render
@@ -96,14 +97,20 @@ def run(tier, seed):
     cases = cases_for(tier, seed)
     raws = common.run_cases_parallel("cluster", cases, wd, procs=12, timeout=3000,
                                      env={"NUN_ELECTION_TIMEOUT": "10"})
+    # every catch-up the primary built is compared with NunCatchUp first: the recorded divergence of a
+    # rejoined node is accepted only in runs whose catch-up lines are those of the recorded behaviour
+    cu_path = os.path.join(wd, "catchup.ndjson")
+    n_calls, per_run = catchup.normalize(raws, cu_path)
+    bad, checked = catchup.validate(cu_path, wd)
     norm_path = os.path.join(wd, "norm.ndjson")
-    cluster.normalize(raws, norm_path)
+    cluster.normalize(raws, norm_path, conf_by_run={c["id"]: c["id"] not in bad for c in cases})
     out = common.validate_into(res, norm_path, "Trace_Cluster.tla", "Trace_Cluster.cfg", CHECKS, devs,
                                "/dev/null", wd, {c["id"]: c for c in cases})
     res.coverage.update({
         "states": out["states"], "transitions": out["events"],
         "model": "Trace_Cluster.tla (ClusterMonitor reference, group CONV at the quiescence after the rejoin)",
         "traces_validated_against_impl": out["runs"], "events_validated": out["events"], "cases": len(cases),
+        "catch_up_calls_checked_against_NunCatchUp": checked, "catch_up_calls_not_conforming": sum(len(v) for v in bad.values()),
         "samples": [{"meta": c["meta"], "ops": [o["line"] for o in c["ops"]][-12:]} for c in cases[:: max(1, len(cases) // 3)][:3]],
         "exhaustive": False,
         "rule": "primary histories of 1-6 (thorough 1-10) operations over 1-2 databases (set with multi-word, "
